@@ -14,12 +14,14 @@ PROP_OPS = {
     'C12': ['remove', 'remove_subtree', 'append_value', 'new_node'] + list(INSERTS),
     'C13': ['clear'],
 }
+QUICK4 = set(CHECKED) | set(UNARY) | {'new_node', 'append_value', 'clear'}
 NEEDS_NODES = set(INSERTS) | set(UNARY) | {'append_value'}
 HEAVY = set(INSERTS) | {'remove', 'remove_subtree'}
 
 
 def weight(job):
-    w = {0: 0.1, 1: 0.3, 2: 2, 3: 15, 4: 60, 5: 200, 6: 600}.get(job['N'], 1000)
+    w = {0: 0.1, 1: 0.3, 2: 2, 3: 15, 4: 75, 5: 400, 6: 900}.get(job['N'], 1000)
+    if job.get('op') == 'remove_subtree' and job['N'] >= 4: w *= (1 if job.get('fix_x') is not None else 4)
     if job.get('kind', '').startswith('c17'):
         return {0: 0.1, 1: 0.5, 2: 5, 3: 40, 4: 100}.get(job['N'], 1000)
     if job.get('kind') == 'custom' and job.get('func') == 'run_clone_job':
@@ -36,7 +38,8 @@ def weight(job):
     if job.get('kind') in ('iter', 'pair', 'deiter'):
         return {1: 0.1, 2: 0.3, 3: 1, 4: 8, 5: 140, 6: 300}.get(job['N'], 1000) * (3 if job['kind'] != 'iter' else 1)
     if job['op'] not in HEAVY: w *= 0.15
-    if job.get('fix_t') is not None: w /= 4
+    if job.get('fix_t') is not None: w = 105
+    if job.get('op') == 'remove' and job['N'] == 4: w = 50
     return w
 
 
@@ -44,29 +47,36 @@ def mutator_jobs(prop, tier):
     ops = PROP_OPS.get(prop, [])
     jobs = []
     cfgs = ['dev']
-    if prop in ('C05',): cfgs = ['dev', 'release']
+    if prop in ('C05', 'C04'): cfgs = ['dev', 'release']
     if tier == 'thorough': cfgs = ['dev', 'release']
     for cfg in cfgs:
         for op in ops:
             if tier == 'quick':
                 ns = [0, 1, 2, 3]
             else:
-                ns = [0, 1, 2, 3, 4] + ([5] if op not in HEAVY else [])
+                # measured (one job): insert N=4 ~75 s, remove_subtree N=4 ~275 s, insert N=5 with both slot numbers fixed ~105 s
+                ns = [0, 1, 2, 3, 4] + ([5] if op not in HEAVY else []) + ([6] if op in ('new_node', 'clear') else [])
             for N in ns:
                 if N == 0 and op in NEEDS_NODES: continue
-                if cfg == 'release' and tier == 'quick' and N < 3 and prop != 'C05': continue
-                base = {'kind': 'mutator', 'op': op, 'N': N, 'cfg': cfg, 'feat': 'std', 'props': [prop]}
-                jobs.append(base)
-            if tier == 'thorough' and op in HEAVY and cfg == 'dev':
-                # N = 5 partitioned by the slot numbers of the arguments (union = same claim)
-                N = 5
-                if op in INSERTS:
-                    for t in range(1, N + 1):
-                        for x in range(1, N + 1):
-                            jobs.append({'kind': 'mutator', 'op': op, 'N': N, 'cfg': cfg, 'feat': 'std', 'props': [prop], 'fix_t': t, 'fix_x': x})
+                if cfg == 'release' and tier == 'quick' and N < 3 and prop not in ('C05', 'C04'): continue
+                if cfg == 'release' and tier == 'thorough' and N >= 4 and op in HEAVY and prop != 'C05': continue
+                if N == 4 and op == 'remove_subtree':
+                    for x in range(1, 5): jobs.append({'kind': 'mutator', 'op': op, 'N': N, 'cfg': cfg, 'feat': 'std', 'props': [prop], 'fix_x': x})
+                    continue
+                jobs.append({'kind': 'mutator', 'op': op, 'N': N, 'cfg': cfg, 'feat': 'std', 'props': [prop]})
+            if tier == 'quick' and (cfg == 'dev' or prop == 'C04') and op in QUICK4:
+                # N = 4 is the smallest arena with a middle child, or a last child that has two children of its own: the unchecked
+                # inserts are thin wrappers around the checked ones and are left to the thorough tier at this size
+                if op == 'remove_subtree':
+                    for x in range(1, 5): jobs.append({'kind': 'mutator', 'op': op, 'N': 4, 'cfg': cfg, 'feat': 'std', 'props': [prop], 'fix_x': x})
                 else:
+                    jobs.append({'kind': 'mutator', 'op': op, 'N': 4, 'cfg': cfg, 'feat': 'std', 'props': [prop]})
+            if tier == 'thorough' and op in CHECKED and cfg == 'dev':
+                # N = 5 partitioned by the slot numbers of the two arguments (the union of the 25 sub-jobs is the same claim)
+                N = 5
+                for t in range(1, N + 1):
                     for x in range(1, N + 1):
-                        jobs.append({'kind': 'mutator', 'op': op, 'N': N, 'cfg': cfg, 'feat': 'std', 'props': [prop], 'fix_x': x})
+                        jobs.append({'kind': 'mutator', 'op': op, 'N': N, 'cfg': cfg, 'feat': 'std', 'props': [prop], 'fix_t': t, 'fix_x': x})
     return jobs
 
 
@@ -177,7 +187,21 @@ def history_jobs(prop, tier):
     return jobs
 
 
+def with_release(jobs, tier, maxn=3):
+    """thorough tier: the non-mutator harnesses also run on the release-configuration MIR (debug assertions compiled out)"""
+    if tier != 'thorough': return jobs
+    extra = []
+    for j in jobs:
+        if j.get('cfg') == 'dev' and j.get('N', 0) <= maxn and not j.get('kind', '').startswith('c17') and j.get('module') != 'kanileaf':
+            k = dict(j); k['cfg'] = 'release'; extra.append(k)
+    return jobs + extra
+
+
 def plan(prop, tier):
+    return with_release(plan_dev(prop, tier), tier) if prop in ('C09', 'C10', 'C11', 'C13', 'C14') else plan_dev(prop, tier)
+
+
+def plan_dev(prop, tier):
     jobs = mutator_jobs(prop, tier)
     if prop in ('C01', 'C02', 'C08', 'C12'): jobs += history_jobs(prop, tier)
     if prop in ('C03', 'C08'):
